@@ -14,6 +14,7 @@ import NanoVerif.Model.PaintedLayers
 import NanoVerif.Model.Ninja
 import NanoVerif.Model.Sched
 import NanoVerif.Model.ColrSvg
+import NanoVerif.Model.Shape
 /-
 Correspondence driver.  One JSON object per input line: {"op": ..., ...}; one JSON object per
 output line.  Run: `lake env lean --run Driver.lean < ops.jsonl`.
@@ -216,6 +217,14 @@ def jDir (old : BuildDir) (b : BuildDir) (vis : Bool) : Json :=
 
 def dispatch (op : String) (j : Json) : Except String Json := do
   match op with
+  | "shape-lig" =>
+      let rules ← (← getArr (← field j "rules")).mapM (fun rj => do
+        let a ← getArr rj
+        match a with
+        | [s, t] => pure (⟨← getNats s, ← getNat t⟩ : LigRule)
+        | _ => .error "rule")
+      let inputs ← (← getArr (← field j "inputs")).mapM getNats
+      return obj [("out", Json.arr (inputs.map (fun i => Json.arr ((shapeLig rules (i.length + 1) i).map (fun g => jI (Int.ofNat g))).toArray)).toArray)]
   | "colr-to-svg" =>
       let p ← getCP (← field j "paint")
       let V ← getAff (← field j "V")
